@@ -535,5 +535,9 @@ func evidenceDir(o *Options) string {
 	if d := os.Getenv("GOVC_EVIDENCE_DIR"); d != "" {
 		return d
 	}
+	if o.Only != "" {
+		// a debugging run over a part of the units must not replace the evidence of the full check
+		return filepath.Join(os.TempDir(), "govc-partial-evidence")
+	}
 	return filepath.Join(o.Verif, "evidence")
 }
